@@ -106,6 +106,32 @@ def check(ctx):
         ctx.check(back is None, "C06.b", "%s:stops-after-removal" % fk, f.loc(rb), "loop is left right after the removal",
                   "the search continues after the removal with shifted indices")
         # no other write to the list
+    # the entity-scoped arms: whatever revoke_reactor calls with an EntityReactionType for an entity-specific kind removes
+    # the entry from that entity's EntityReactors (found arm of the lookup), with its own reaction type and reactor id
+    n_ent = 0
+    for f in path_fns:
+        tys = [f.local_ty(i) for i in range(1, f.arg_count + 1)]
+        if not (any(t.endswith("entity::Entity") for t in tys) and any(t.endswith("::EntityReactionType") for t in tys)
+                and any("Query<" in t and "EntityReactors" in t for t in tys) and any(t.endswith("::SystemCommand") for t in tys)):
+            continue
+        n_ent += 1
+        ctx.touch(f)
+        ent_i = [i + 1 for i, t in enumerate(tys) if t.endswith("entity::Entity")][0]
+        rty_i = [i + 1 for i, t in enumerate(tys) if t.endswith("::EntityReactionType")][0]
+        id_i = [i + 1 for i, t in enumerate(tys) if t.endswith("::SystemCommand")][0]
+        gets = [b for b, t, fr in f.iter_calls() if fr and lib.tail(mir.fn_name(fr), 2) in ("Query::get_mut", "Query::get") and len(t["args"]) > 1
+                and lib.originates_from_arg(f, t["args"][1], ent_i)]
+        rms = [(b, t) for b, t, fr in f.iter_calls() if fr and (prog.resolve_local(fr) is not None) and lib.impl_self_name(prog.resolve_local(fr)) == "EntityReactors"
+               and len(t["args"]) == 3 and lib.originates_from_arg(f, t["args"][1], rty_i) and lib.originates_from_arg(f, t["args"][2], id_i)]
+        ok = bool(gets) and bool(rms)
+        if ok:
+            oks = [ok_t for g in gets for (sb, ok_t, fail_t) in lib.result_arms(f, g)]
+            w = lib.path_to_return_avoiding(f, oks, [b for b, t in rms]) if oks else [0]
+            ok = w is None
+        ctx.check(ok, "C06.b", "%s:removes-from-the-entity's-reactors" % lib.fkey(f), "%s:%d" % (f.file, f.line),
+                  "on the found arm the entity's EntityReactors::remove is called with the given reaction type and reactor id",
+                  "%s does not remove (reaction type, reactor id) from the looked-up entity's reactors on every found path" % lib.fkey(f))
+    ctx.floor("C06.b", n_ent, 1, "entity-scoped revoke helper")
     # EntityReactors::remove
     try:
         er = A.method(prog, "EntityReactors", "remove")
@@ -155,6 +181,17 @@ def check(ctx):
         ctx.check(L.driver is not None and not L.exits, "C06.c", "revoke_reactor:visits-every-token-entry", rr.loc(L.header),
                   "token loop has no early exit", "the loop over the token's reactor types can be left early")
     ctx.floor("C06.c", len(LP.find_loops(rr)), 1, "loop over token entries")
+    # World::react applies what its callback queued before returning: `world.react(|rc| rc.revoke(token))` (used by one-off
+    # reactors and by user code) is complete when it returns
+    wr = [b for b in prog.bodies if b.kind == "assoc_fn" and b.raw.get("name") == "react" and lib.impl_self_name(b) == "World"]
+    for m in wr:
+        ctx.touch(m)
+        cbs = [b for b, t, fr in m.iter_calls() if fr and lib.tail(mir.fn_name(fr), 1) in ("call_once", "call_mut", "call")]
+        fl = [b for b, t, fr in m.iter_calls() if fr and lib.tail(mir.fn_name(fr), 2) in ("World::flush", "World::flush_commands")]
+        w = lib.path_to_return_avoiding(m, [lib.call_target(m, c) for c in cbs], fl) if cbs else [0]
+        ctx.check(bool(cbs) and w is None, "C06.c", "World::react:flushes-before-returning", "%s:%d" % (m.file, m.line),
+                  "every path from the callback to return passes World::flush", "World::react can return without applying the commands its callback queued (a revocation issued through it is not immediate)")
+    ctx.floor("C06.c", len(wr), 1, "World::react")
     # every function that schedules revoke_reactor does so on every path: a revocation request is never dropped at call
     # time (in particular it is not gated on the reactor's own entity: a one-off reactor despawns itself and THEN revokes)
     uses = [(body, b) for body, b, i, fr in prog.fn_value_uses(lambda n: n.endswith("react_commands::revoke_reactor")) if i is None]
